@@ -368,7 +368,8 @@ func c09Wire() vh.Unit {
 			for i := 0; i < 300 && !ok; i++ { // "eventually": up to a minute, normally the first round
 				time.Sleep(200 * time.Millisecond)
 				last = askPeers()
-				ok = strings.Contains(last, "no available host nodes") || strings.Contains(last, "no host nodes")
+				// (whatever the wording of the error: the reply no longer offers the host)
+				ok = !strings.HasPrefix(last, "error: ") && !strings.Contains(last, host.NodeID)
 			}
 			step("peer-after-last-connection-closed-" + variant)
 			if !ok {
